@@ -72,6 +72,50 @@ CHECKS = {
         technique="TLA+ models of the lazily initialised registry and of object lineages checked exhaustively by TLC (safety and liveness); TLC-generated thread schedules "
                   "forced on the code through hooks; code->spec trace validation in TLC",
     ),
+    "C04": dict(
+        category="model_checking",
+        text="sys/SignChannel (signer, adversary who may hold the private key, verifier; symbolic structured signatures) is explored exhaustively by TLC to "
+             "depth 2 (deeper by simulation): replay accepted, (r, n - s) the only accepted twin and only for (EC)DSA, out-of-range and non-canonical components, "
+             "lax DER, wrong lengths rejected. Every operator sequence is concretised and replayed on the real schemes (RSASSA-PKCS1-v1_5, RSASSA-PSS, DSA and ECDSA in "
+             "FIPS 186 and RFC 6979 modes with binary and DER encodings, Ed25519/Ed448 with context and prehash), together with sign() histories (sign; sign, the hash "
+             "object's digest before and after, bytes drawn from the random source) and raw _sign/_verify calls on scaled-down curves. TLC judges every record with "
+             "trace/SignTrace over data/Signatures: structural rules without arithmetic, RSA by the certified relation s^e mod n = EM (EMSA-PKCS1-v1_5 and EMSA-PSS "
+             "transcribed), (EC)DSA/EdDSA by certified relations where the record carries witnesses and by consistency with the genuine tuple elsewhere; deterministic "
+             "schemes byte for byte (PKCS#1 v1.5 through the RSA permutation, RFC 6979 through the nonce derivation, EdDSA through r, k, S).",
+        design_ref="DESIGN.md section 6, C04",
+        note="Trusted: TLC; data/Signatures and its foundations (pinned by RFC 8017/6979/8032 and OpenSSL-produced vectors as ASSUMEs checked at setup). Witnesses "
+             "(quotients, chain points) are untrusted. Forgeries unrelated to a genuine signature are not explored; full-size EC relations are certified for a sample only.",
+        technique="TLA+ system model (signature adversary operator algebra) checked by TLC; spec->code replay; code->spec trace validation with the signature standards "
+                  "transcribed in TLA+ and witnessed big-number relations",
+    ),
+    "C06": dict(
+        category="model_checking",
+        text="sys/KeyAgreement is explored exhaustively by TLC: every equipment of two parties with static/ephemeral key pairs on up to two curves, every delivery of "
+             "every public key (withheld, genuine, replaced by a low-order point), every caller mistake; invariants: both parties derive the same term, exactly the "
+             "SP 800-56A equipments yield a secret, no secret from bad input (a mutated responder table is shown to violate Agreement). A seed-dependent sample of the "
+             "configurations is replayed on the real DH.key_agreement for both parties. The real EccPoint/EccXPoint arithmetic is recorded on the nine curves and on "
+             "scaled-down SEC 2 curves run through the generic C code (every operand class: P+Q, P+P, P+(-P), P+O, O+O, low-order operands; scalars 0, 1, n-1, n, n+1, "
+             "beyond the order, random). TLC judges every record with trace/EcTrace: Weierstrass, twisted-Edwards and Montgomery laws of data/ECGroup as relations "
+             "certified link by link with untrusted witnesses, the RFC 7748 ladder, SEC1/RFC 7748 encodings of the shared secret, and the outcome table of the model.",
+        design_ref="DESIGN.md section 6, C06",
+        note="Trusted: TLC; data/ECGroup (curve parameters pinned by ASSUMEs: generators on their curves, n*G neutral certified link by link, RFC 7748 vectors); "
+             "primality of the field primes. Witnesses are untrusted. Full-length scalars on full-size curves are sampled (quick: structured scalars; thorough: random full length).",
+        technique="TLA+ model of the key-agreement role matrix checked exhaustively by TLC; spec->code replay; code->spec trace validation with the group laws transcribed "
+                  "in TLA+ as witnessed relations",
+    ),
+    "C12": dict(
+        category="exploration",
+        text="RFC 8018 PBKDF1/PBKDF2, RFC 5869 HKDF, SP 800-108r1 counter mode, RFC 5297 S2V, RFC 7914 scrypt and bcrypt ($2a$, EksBlowfish) are transcribed in TLA+ "
+             "(data/KDF) with their domain predicates; TLC computes the expected bytes (or the refusal) for every call recorded from the real library: toy PRF/hash "
+             "passed through prf=/hashAlgo=/hashmod= for the structure (block counter, XOR chain, partial last block, multi-key slicing) over thousands of parameter "
+             "points, real HMAC/SHA paths incl. the C helper with small counts, scrypt with small (N, r, p), bcrypt at cost 4 cut into witnessed EksBlowfish links, "
+             "bcrypt_check on genuine / flipped / 72- vs 73-byte / NUL passwords, out-of-domain parameters. TLC is a reference evaluator here: inputs are sampled at "
+             "boundary values, not enumerated.",
+        design_ref="DESIGN.md section 6, C12",
+        note="Trusted: TLC; data/KDF and its foundations (pinned by RFC 6070/5869/7914/5297, SP 800-108 and OpenSSL/bcrypt reference vectors as ASSUMEs checked at setup). "
+             "Large cost parameters (PBKDF2 counts above about 1000 with a real PRF, scrypt N above 16, bcrypt cost above 4) are out of TLC's reach.",
+        technique="standards transcribed as a TLA+ data layer evaluated by TLC on recorded calls (code->spec trace validation)",
+    ),
     "C03": dict(
         category="model_checking",
         text="The standards are transcribed in TLA+ (FIPS 180-4 SHA-1/SHA-2 incl. truncated variants, RFC 1319/1320/1321 MD2/MD4/MD5, RIPEMD-160, FIPS 202 / SP 800-185 / "
